@@ -231,6 +231,7 @@ func (req *SrvReq) process() {
 	if !flushed {
 		req.status |= reqWork
 	}
+	verifPoint("process.start", req, uint32(req.status), 0)
 	req.Unlock()
 
 	if flushed {
@@ -250,6 +251,7 @@ func (req *SrvReq) process() {
 	if req.status&reqResponded == 0 {
 		req.status |= reqSaved
 	}
+	verifPoint("process.tail", req, uint32(req.status), 0)
 	req.Unlock()
 }
 
@@ -383,10 +385,12 @@ func (req *SrvReq) Respond() {
 	var flushreqs *SrvReq
 
 	conn := req.Conn
+	verifPoint("respond.enter", req, 0, 0)
 	req.Lock()
 	status := req.status
 	req.status |= reqResponded
 	req.status &= ^reqWork
+	verifPoint("respond.R1", req, uint32(status), 0)
 	req.Unlock()
 
 	if (status & reqResponded) != 0 {
@@ -417,8 +421,10 @@ func (req *SrvReq) Respond() {
 		delete(conn.reqs, req.Tc.Tag)
 		flushreqs = req.flushreq
 	}
+	verifPoint("respond.R2", req, 0, 0)
 	conn.Unlock()
 
+	verifPoint("respond.R3", req, 0, 0)
 	if rop, ok := (req.Conn.Srv.ops).(SrvReqProcessOps); ok {
 		rop.SrvReqRespond(req)
 	} else {
@@ -432,9 +438,11 @@ func (req *SrvReq) Respond() {
 			/* the connection is closed: nobody is left to send the reply */
 		}
 	}
+	verifPoint("respond.R4", req, uint32(status), 0)
 
 	// process the next request with the same tag (if available)
 	if nextreq != nil {
+		verifPoint("respond.next", req, 0, 0)
 		go nextreq.process()
 	}
 
@@ -442,8 +450,10 @@ func (req *SrvReq) Respond() {
 	// can't send the responses directly to conn.reqout, because the
 	// the flushes may be in a tag group too
 	for freq := flushreqs; freq != nil; freq = freq.flushreq {
+		verifPoint("respond.flushes", req, 0, 0)
 		freq.Respond()
 	}
+	verifPoint("respond.exit", req, 0, 0)
 }
 
 // Should be called to cancel a request. Should only be called
@@ -451,6 +461,7 @@ func (req *SrvReq) Respond() {
 func (req *SrvReq) Flush() {
 	req.Lock()
 	req.status |= reqFlush
+	verifPoint("req.flush", req, 0, 0)
 	req.Unlock()
 	req.Respond()
 }
